@@ -109,4 +109,93 @@ def findBatchPartition (npb nq nt : Nat) (ncores : Option Nat) : Nat × Nat :=
     else (rows, cols)
   | none => (rows, cols)
 
+/-! ## Extensions (second pass)
+
+### `scores='both'`: two rows per query
+
+`Blaster.multi_query_target(scores='both')` fills a 3-d array `res[i,k] = (forward, reverse)` and returns
+`np.hstack((res[:,:,0], res[:,:,1])).reshape(len(q_idx)*2, len(t_idx))`; `nblast` places that block at
+`rows_ix = np.repeat(this.queries_ix * 2, 2); rows_ix[1::2] += 1`. -/
+
+/-- `np.repeat(xs, 2)`. -/
+def repeat2 (xs : List Nat) : List Nat := xs.flatMap fun v => [v, v]
+
+/-- `xs[1::2] += 1`. -/
+def addOdd (xs : List Nat) : List Nat := xs.mapIdx fun i v => if i % 2 = 1 then v + 1 else v
+
+/-- `rows_ix` of a finished `scores='both'` job, as written. -/
+def bothRows (qix : List Nat) : List Nat := addOdd (repeat2 (qix.map (· * 2)))
+
+/-- `np.hstack((F, R))` of two equally high matrices. -/
+def hstack {α} (F R : List (List α)) : List (List α) := List.zipWith (· ++ ·) F R
+
+/-- C-order `flat.reshape(rows, cols)`. -/
+def reshape {α} (rows cols : Nat) (flat : List α) : List (List α) :=
+  (List.range rows).map fun i => (flat.drop (i * cols)).take cols
+
+/-- The block a `scores='both'` job returns, from its 3-d array `res[a][b] = (fwd, rev)`. -/
+def bothBlock {α} (res : List (List (α × α))) (nq nt : Nat) : List (List α) :=
+  reshape (2 * nq) nt (hstack (res.map (·.map Prod.fst)) (res.map (·.map Prod.snd))).flatten
+
+def jobResultBoth {α} (f : Nat → Nat → α × α) (j : Job) : List (List α) :=
+  bothBlock (jobResult f j) j.qix.length j.tix.length
+
+/-- The destination of a `both` block inside the `2·nq × nt` matrix. -/
+def bothJob (j : Job) : Job := ⟨bothRows j.qix, j.tix⟩
+
+def assembleBoth {α} (f : Nat → Nat → α × α) (done : List Job) : Mat α :=
+  assembleBlocks (done.map fun j => (bothJob j, jobResultBoth f j))
+
+/-! ### `find_batch_partition` as written (timing → neurons per batch; `while` loop) -/
+
+/-- `max(1, int(np.sqrt(T / time_per_query)))` for a measured `time_per_query = tnum / tden` seconds. -/
+def neuronsPerBatch (T tnum tden : Nat) : Nat := max 1 (Nat.sqrt (T * tden / tnum))
+
+/-- `while (n_rows * n_cols) % n_cores: n_rows += 1` with explicit fuel. -/
+def batchRowsLoop (cols n : Nat) : Nat → Nat → Nat
+  | 0, rows => rows
+  | fuel + 1, rows => if (rows * cols) % n ≠ 0 then batchRowsLoop cols n fuel (rows + 1) else rows
+
+/-- `find_batch_partition` with the loop as written (fuel `n_cores` always suffices, see
+`Props.C09.batch_loop_terminates`). -/
+def findBatchPartitionW (npb nq nt : Nat) (ncores : Option Nat) : Nat × Nat :=
+  let rows := max 1 (nq / npb)
+  let cols := max 1 (nt / npb)
+  match ncores with
+  | some n => if n ≠ 0 ∧ rows * cols > n then (batchRowsLoop cols n n rows, cols) else (rows, cols)
+  | none => (rows, cols)
+
+/-! ### Which partition each NBLAST flavour asks for
+
+`nblast`:   `if n_cores and n_cores > 1:` progress ⇒ `find_batch_partition(T = 10·JOB_SIZE_MULTIPLIER)`,
+            else `find_batch_partition(T = JOB_MAX_TIME_SECONDS)` and, when that yields fewer jobs than
+            cores, `find_optimal_partition`; otherwise `1 × 1`.
+`nblast_allbyall`, `nblast_smart`, `synblast`: progress ⇒ batch partition, else optimal partition.
+`npbP`, `npbM` are the neurons-per-batch values the timing measurement yields for the two `T`s. -/
+def chooseNblast (ncores : Option Nat) (progress : Bool) (npbP npbM nq nt : Nat) : Option (Nat × Nat) :=
+  match ncores with
+  | some n =>
+    if n > 1 then
+      if progress then some (findBatchPartitionW npbP nq nt none)
+      else
+        let rc := findBatchPartitionW npbM nq nt none
+        if rc.1 * rc.2 < n then findOptimalPartition n nq nt else some rc
+    else some (1, 1)
+  | none => some (1, 1)
+
+def chooseSimple (ncores : Option Nat) (progress : Bool) (npbP nq nt : Nat) : Option (Nat × Nat) :=
+  match ncores with
+  | some n =>
+    if n > 1 then
+      if progress then some (findBatchPartitionW npbP nq nt none) else findOptimalPartition n nq nt
+    else some (1, 1)
+  | none => some (1, 1)
+
+/-- Does the code take the multi-job path?  `if n_cores and n_cores > 1 and (n_cols > 1 or n_rows > 1)`
+submits, `if futures and len(futures) > 1` collects. -/
+def multiJob (ncores : Option Nat) (rows cols : Nat) : Bool :=
+  match ncores with
+  | some n => n > 1 ∧ (cols > 1 ∨ rows > 1)
+  | none => false
+
 end Navis.Partition
